@@ -7,7 +7,7 @@ use ntex_util::services::buffer::{BufferService, BufferServiceError};
 use ntex_util::{HashSet, future::join, services::inflight::InFlightService};
 
 use crate::error::{
-    DecodeError, DispatcherError, MqttError, PayloadError, ProtocolError, SpecViolation,
+    DispatcherError, MqttError, PayloadError, ProtocolError, SpecViolation,
 };
 use crate::payload::{Payload, PayloadStatus};
 use crate::{MqttServiceConfig, types::QoS, types::packet_type};
@@ -247,7 +247,9 @@ where
                     }
                     Ok(None)
                 } else {
-                    Err(ProtocolError::Decode(DecodeError::UnexpectedPayload).into())
+                    // publish was refused or its handler is gone, rest of its payload is dropped
+                    log::trace!("Payload chunk for inactive publish is dropped");
+                    Ok(None)
                 }
             }
             Decoded::Packet(Packet::PublishAck { packet_id }, _) => {
